@@ -172,6 +172,10 @@ def replay_case(mod, case):
     if isinstance(case, dict) and "_shard" in case:
         run_shard_guarded(mod, case["_shard"], case.get("_tier", "quick"),
                           acc)
+        if case.get("_key"):
+            # a history-dependent verdict confirmed by its shard
+            return {k: v for k, v in acc.violations.items()
+                    if k == case["_key"]}
         # only the escaped exception is the subject of this replay
         return {k: v for k, v in acc.violations.items()
                 if v["sig"].get("kind") == "uncaught_exception_in_rig"}
@@ -308,6 +312,7 @@ def _main(argv):
         for c in r["caps"]:
             tot.cap(c)
         for k, v in r["violations"].items():
+            v = dict(v, shard=r["idx"])
             if k not in viol:
                 viol[k] = dict(v)
             else:
@@ -332,6 +337,26 @@ def _main(argv):
         v = viol[k]
         # confirm by re-execution from scratch before believing it
         again = replay_case(mod, v["case"])
+        if k not in again and isinstance(v.get("shard"), int) and not (
+                isinstance(v["case"], dict) and "_shard" in v["case"]):
+            # not reproducible as a single case: the footprint of state the
+            # library kept from earlier cases of the same shard.  Re-run the
+            # whole shard (this process has not run any case yet); if the
+            # verdict comes back it is a confirmed, history-dependent
+            # violation whose replay is the shard.
+            acc2 = Acc()
+            try:
+                run_shard_guarded(mod, shards[v["shard"]], args.tier, acc2)
+            except BaseException:
+                pass
+            if k in acc2.violations:
+                v = dict(v, case=dict(_shard=shards[v["shard"]],
+                                      _tier=args.tier, _key=k,
+                                      single_case=v["case"]),
+                         msg=v["msg"] + "\n  (history-dependent: reproduced "
+                         "by re-running its shard, not by the case alone)")
+                viol[k] = v
+                again = {k: v}
         if k not in again:
             unreproduced.append((k, v, sorted(again)))
             continue
